@@ -212,9 +212,9 @@ let () =
          and whether the tree is in the scope of the conservation theorem *)
       each_line (fun line ->
           let t = toks_of line in
-          let tree = parse_tree t in
+          let tree = annotate (parse_tree t) in
           let d = parse_doc t in
-          (if not (sig_scope tree) then "2" else if sig_check tree d then "1" else "0") ^ (if sc (annotate tree) then " 1" else " 0"))
+          (if not (sig_scope tree) then "2" else if sig_check tree d then "1" else "0") ^ (if sc tree then " 1" else " 0"))
   | "conv" ->
       (* W TAB REORDER NW (HEX WIDTH)*NW TREE -> ok COUNT:WFC:SIZE:SWFC:SIG DOC<tab>OUTHEX | err | panic SITE | fuel *)
       each_line (fun line ->
